@@ -54,8 +54,9 @@ static void applyOpt(GMGPolar& g, const std::string& name, int val)
     else if (name == "take")
         g.stencilDistributionMethod(val ? StencilDistributionMethod::CPU_TAKE : StencilDistributionMethod::CPU_GIVE);
     else if (name == "caches") {
-        g.cacheDensityProfileCoefficients(val != 0);
-        g.cacheDomainGeometry(val != 0);
+        // 0 none, 1 both; 2 = density coefficients only, 3 = geometry only (legal with give; the life-cycle model sees "not both")
+        g.cacheDensityProfileCoefficients(val == 1 || val == 2);
+        g.cacheDomainGeometry(val == 1 || val == 3);
     }
     else if (name == "maxIter")
         g.maxIterations(val);
@@ -173,7 +174,7 @@ int main(int argc, char** argv)
         }
         gmgpolar_verif::sink() = trace;
         const auto& o = c["ctor"];
-        auto B        = [&](const char* n) { return (int)o[n].boolean(); };
+        auto B        = [&](const char* n) { return o[n].kind == mj::Value::Bool ? (int)o[n].boolean() : (int)(o[n].num() == 1); };
         event("Ctor", "\"c01\":%d,\"case\":%d,\"ext\":%d,\"fmg\":%d,\"L\":%d,\"take\":%d,\"caches\":%d,\"maxIter\":%d,\"absOn\":%d,\"relOn\":%d,"
                       "\"exact\":%d,\"misc\":%d,\"grid\":%d",
               c.has("c01") ? c["c01"].num() : 0, c["id"].num(), o["ext"].num(), B("fmg"), o["L"].num(), B("take"), B("caches"), o["maxIter"].num(),
